@@ -69,8 +69,8 @@ class C29(Check):
         p = ctx.Process(target=c29_devs.child, args=(sg, script, cc))
         p.start()
         cc.close()
-        res = pc.recv() if pc.poll(60) else ("error", "no answer from the child process")
-        p.join(10)
+        res = pc.recv() if pc.poll(300) else ("error", "no answer from the child process")
+        p.join(60)
         if p.is_alive():
             p.kill()
         if res[0] != "ok":
